@@ -25,6 +25,7 @@ N(k, n, a, v) == [k |-> k, n |-> n, a |-> a, v |-> v]
 Lit(q)        == N("lit", "real", <<>>, q)
 ILit(i)       == N("lit", "int", <<>>, RI(i))
 BLit(b)       == N("lit", "bool", <<>>, Bool(b))
+SciLit(m, p)  == N("lit", "sci", <<>>, <<m, p>>)    \* the literal  m e-p  (m * 10^-p): outside the exact arithmetic, its value is Und
 Ref(x)        == N("ref", x, <<>>, Und)
 Idx(x, subs)  == N("ref", x, subs, Und)            \* subs: expressions, Slice, Colon
 Slice(lo, hi) == N("slice", "", <<lo, hi>>, Und)
@@ -224,7 +225,7 @@ CallAll(f, args, cx) ==
         ELSE V(<<Len(fd.outs)>>, [i \in DOMAIN fd.outs |-> st[fd.outs[i]].d[1]])
 
 Val(e, cx) ==
-    CASE e.k = "lit" -> Sc(e.v)
+    CASE e.k = "lit" -> (IF e.n = "sci" THEN Sc(Und) ELSE Sc(e.v))
       [] e.k = "ref" -> ValRef(e, e.n, cx)
       [] e.k = "der" -> ValRef(e.a[1], "der(" \o e.a[1].n \o ")", cx)
       [] e.k = "un"  -> Map1(e.n, Val(e.a[1], cx))
@@ -336,15 +337,26 @@ ModOf(c, attr) == LET S == {i \in DOMAIN c.mods : c.mods[i].attr = attr}
                   IN  IF S = {} THEN [attr |-> "none", each |-> FALSE, e |-> Lit(Und)] ELSE c.mods[CHOOSE i \in S : TRUE]
 HasMod(c, attr) == \E i \in DOMAIN c.mods : c.mods[i].attr = attr
 
-(* constants, and Integer parameters with a literal binding (they size arrays and loops), keep
-   their declared value at every point; everything else is a free input of the residual *)
-Pinned(c) == /\ HasMod(c, "value") /\ ModOf(c, "value").e.k = "lit"
+(* constants with a literal binding, and Integer constants / parameters with a literal OR a constant-expression
+   binding over earlier such components (they size arrays and loops and appear in subscripts), keep their declared
+   value at every point; everything else is a free input of the residual *)
+Pinned(c) == /\ HasMod(c, "value") /\ c.dims = <<>>
              /\ (c.prefix = "constant" \/ (c.prefix = "parameter" /\ c.type = "Integer"))
+             /\ (ModOf(c, "value").e.k = "lit" \/ c.type = "Integer")
+
+RECURSIVE PinEnvUpTo(_, _)
+PinEnvUpTo(P, n) ==      \* name -> value of the pinned components among the first n declarations
+    IF n = 0 THEN [x \in {} |-> Sc(Zero)]
+    ELSE LET prev == PinEnvUpTo(P, n - 1)
+             c    == P.comps[n]
+         IN  IF ~Pinned(c) THEN prev
+             ELSE Bind(prev, c.name, IF ModOf(c, "value").e.k = "lit" THEN Sc(ModOf(c, "value").e.v)
+                                     ELSE Val(ModOf(c, "value").e, Cx(P, prev, NoLoc)))
 
 CompVal(P, i, t, off) ==
     LET c == P.comps[i]
         n == Numel(c.dims)
-    IN  IF Pinned(c) /\ off = 0 THEN V(c.dims, [j \in 1..n |-> ModOf(c, "value").e.v])
+    IN  IF Pinned(c) /\ off = 0 THEN PinEnvUpTo(P, i)[c.name]
         ELSE V(c.dims, [j \in 1..n |-> PointVal(3 * (i + off) + j, t, c.type)])
 
 HasDer(c) == c.type = "Real" /\ c.prefix \in {"", "output"}
@@ -363,28 +375,15 @@ EnvAt(P, t) ==
 CxAt(P, t) == Cx(P, EnvAt(P, t), NoLoc)
 
 (* structural environment: only the pinned components (what sizes arrays, loops and subscripts) *)
-SEnv(P) == LET S == {i \in DOMAIN P.comps : Pinned(P.comps[i])}
-           IN  [x \in {P.comps[i].name : i \in S} |-> CompVal(P, CHOOSE i \in S : P.comps[i].name = x, 1, 0)]
+SEnv(P) == PinEnvUpTo(P, Len(P.comps))
 
 (* a slice lo:hi with lo > hi selects nothing whatever the declared size; whether such a program must be
    rejected when lo or hi lie outside 1..n is not something the properties decide: "either" is accepted *)
-RECURSIVE EmptySliceIn(_)
-EmptySliceIn(e) == (e.k = "slice" /\ e.a[1].k = "lit" /\ e.a[2].k = "lit" /\ RLt(e.a[2].v, e.a[1].v))
-                   \/ \E i \in DOMAIN e.a : EmptySliceIn(e.a[i])
-HasEmptySlice(P) == (\E i \in DOMAIN P.eqs : EmptySliceIn(P.eqs[i])) \/ (\E j \in DOMAIN P.ieqs : EmptySliceIn(P.ieqs[j]))
-DaeBlocks(P, t)  == Blocks(P.eqs, CxAt(P, t))
-InitBlocks(P, t) == Blocks(P.ieqs, CxAt(P, t))
+RECURSIVE EmptySliceIn(_, _)
+EmptySliceIn(e, cx) ==       \* bounds are structural: literals or constant expressions over pinned components
+    (e.k = "slice" /\ LET lo == IntOf(e.a[1], cx) hi == IntOf(e.a[2], cx) IN ~IsUnd(lo) /\ ~IsUnd(hi) /\ RLt(hi, lo))
+    \/ \E i \in DOMAIN e.a : EmptySliceIn(e.a[i], cx)
+HasEmptySlice(P) == LET cx == Cx(P, SEnv(P), NoLoc)
+                    IN  (\E i \in DOMAIN P.eqs : EmptySliceIn(P.eqs[i], cx)) \/ (\E j \in DOMAIN P.ieqs : EmptySliceIn(P.ieqs[j], cx))
 
-(* The program must be rejected iff some subscript violates IndexOK.  Subscripts are
-   structural (they depend on literals, loop indices and pinned Integer parameters only),
-   so point 1 decides.                                                         *)
-Rejected(P) == \/ (\E i \in DOMAIN P.eqs  : DaeBlocks(P, 1)[i] = IdxErr)
-               \/ (\E j \in DOMAIN P.ieqs : InitBlocks(P, 1)[j] = IdxErr)
-IllTyped(P) == \E t \in 1..NPts :
-                  \/ (\E i \in DOMAIN P.eqs  : DaeBlocks(P, t)[i] = TypeErr)
-                  \/ (\E j \in DOMAIN P.ieqs : InitBlocks(P, t)[j] = TypeErr)
-
-(* a point is usable if every row has an exact value there *)
-Defined(P, t) == /\ (\A i \in DOMAIN P.eqs  : ~IsErr(DaeBlocks(P, t)[i])  /\ ~HasUnd(DaeBlocks(P, t)[i]))
-                 /\ (\A j \in DOMAIN P.ieqs : ~IsErr(InitBlocks(P, t)[j]) /\ ~HasUnd(InitBlocks(P, t)[j]))
 =============================================================================
